@@ -77,7 +77,21 @@ def gen_irset(rng, special: Optional[bool] = None, toggle: Optional[bool] = None
     return {"IRSetID": rid, "OnOffType": 1 if toggle else 0, "IRWaveList": waves}
 
 
+_CAP_CACHE: Dict[int, Tuple[Dict[str, Any], Dict[str, Any]]] = {}
+
+
 def capabilities(irset: Dict[str, Any]) -> Dict[str, Any]:
+    hit = _CAP_CACHE.get(id(irset))
+    if hit is not None and hit[0] is irset:
+        return hit[1]
+    cap = _capabilities(irset)
+    if len(_CAP_CACHE) > 64:
+        _CAP_CACHE.clear()
+    _CAP_CACHE[id(irset)] = (irset, cap)
+    return cap
+
+
+def _capabilities(irset: Dict[str, Any]) -> Dict[str, Any]:
     keys = [w["Key"] for w in irset["IRWaveList"]]
     modes = []
     for k in keys:
